@@ -309,6 +309,26 @@ def _shapes(world, r):
                 out += construct(I, s1, c, [], k)
             return out
         yield ("device(obj)" + data_forms[0][0], bo, dec)
+        # an address object of the wrong kind as short_address: the bits a
+        # group / broadcast address writes select another addressing scheme
+        if r.name in ("ButtonPressed", "LightEvent", "OccupancyEvent",
+                      "UnknownEvent"):
+            for kind in [k for k in DEVICE_DESTS if k != "DeviceShort"] + \
+                    GEAR_DESTS[:2]:
+                for inum in (False, True):
+                    def bw(I, st, kind=kind, inum=inum):
+                        out = []
+                        for (a, s1) in build_address(I, world, st, kind,
+                                                     "sa"):
+                            k = {"short_address": a}
+                            if inum:
+                                k["instance_number"] = IvInt("inum")
+                            k.update(data_forms[0][1]())
+                            out += construct(I, s1, c, [], k)
+                        return out
+                    yield ("!short_address=%s%s%s" % (
+                        kind, ",inum" if inum else "", data_forms[0][0]),
+                        bw, dec)
 
 
 def _event_data_forms(r):
